@@ -12,11 +12,15 @@ EXC_OTHER = 6
 EXC_TIMEOUT = 99
 
 
+TIMED_OUT = [False]     # set when a CaseTimeout was caught anywhere in this process (impl_runner.py stops the child then)
+
+
 def guarded(fn):
     """Run fn(); return ('ok', value) or ('exc', code, classname)."""
     try:
         return ("ok", fn())
     except CaseTimeout:
+        TIMED_OUT[0] = True
         return ("exc", EXC_TIMEOUT, "Timeout")
     except Exception as e:  # noqa: BLE001 - classifying every exception is the point
         return ("exc", EXC_CODES.get(type(e).__name__, EXC_OTHER), type(e).__name__)
